@@ -30,6 +30,8 @@ def _case_worker(modname, case, conn):
         logging.disable(logging.CRITICAL)
         from symx import engine
         mod = importlib.import_module(modname)
+        if case.get('module'):  # a case may live in another module (shared case families, e.g. MPS/MPO-level aliasing)
+            mod = importlib.import_module(case['module'])
         fn = getattr(mod, case['fn'])
         params = case.get('params', {})
         if hasattr(mod, 'setup_symbolic'):
@@ -213,7 +215,7 @@ def run_property(modname, tier, seed, nproc=16, only=None):
             else:
                 candidates.append((case, label, model, detail))
         for pm in d['path_models']:
-            validate_items.append(dict(module=modname, fn=case['fn'], params=case.get('params', {}), model=pm['model']))
+            validate_items.append(dict(module=case.get('module', modname), fn=case['fn'], params=case.get('params', {}), model=pm['model']))
             validate_meta.append((case['name'], pm['observed']))
 
     # ---- replay every counterexample on the real code before reporting
@@ -221,7 +223,7 @@ def run_property(modname, tier, seed, nproc=16, only=None):
     violations = []
     known_hits = []
     os.makedirs(os.path.join(OUT, 'replays', prop), exist_ok=True)
-    items = [dict(module=modname, fn=c['fn'], params=c.get('params', {}), model=m or {}) for (c, l, m, d) in candidates]
+    items = [dict(module=c.get('module', modname), fn=c['fn'], params=c.get('params', {}), model=m or {}) for (c, l, m, d) in candidates]
     rep_py = concrete_batch(items, no_cython=True)
     rep_cy = concrete_batch(items, no_cython=False)
     for (case, label, model, detail), r1, r2 in zip(candidates, rep_py, rep_cy):
@@ -240,7 +242,7 @@ def run_property(modname, tier, seed, nproc=16, only=None):
         h = hashlib.sha1(json.dumps([key, model], sort_keys=True).encode()).hexdigest()[:12]
         path = os.path.join(OUT, 'replays', prop, f"{h}.json")
         with open(path, 'w') as f:
-            json.dump(dict(property=prop, key=key, module=modname, fn=case['fn'], params=_jsonable(case.get('params', {})),
+            json.dump(dict(property=prop, key=key, module=case.get('module', modname), fn=case['fn'], params=_jsonable(case.get('params', {})),
                            model=model, symbolic_detail=detail, concrete_failures_pure_python=r1.get('failures'),
                            concrete_failures_compiled=r2.get('failures')), f, indent=1)
         kf = match_known(known, key)
